@@ -642,6 +642,7 @@ struct World
     uint64_t s = (uint64_t)prog["seed"].num() * 0x9E3779B97F4A7C15ull + 0x1234567ull + (uint64_t)t;
     if (prog["tname"].type == Json::Str && !prog["tname"].str().empty()) tr::setThreadName(prog["tname"].str().c_str());
     const long long memuse = prog["memuse"].num();
+    const bool climb = prog["climb"].type == vj::Json::Bool && prog["climb"].boolean();
     const long long pool = prog["pool"].num() > 0 ? prog["pool"].num() : 0;        // number of distinct names per kind (0: the small default pools)
     const bool longNames = prog["longnames"].type == vj::Json::Bool && prog["longnames"].boolean();
     static const size_t lens[] = {1, 15, 16, 17, 31, 32, 33, 255, 256, 257, 1023, 1024, 1025, 4097};
@@ -658,6 +659,7 @@ struct World
       unsigned x = (unsigned)(rnd(s) % 100);
       char k;
       if (depth >= left) k = 'E';                               // close what is open within the n events
+      else if (climb && i < maxdepth && depth < maxdepth && depth + 2 <= left) k = 'B';   // straight up to the maximal depth first
       else if (x < 30 && depth < maxdepth && depth + 2 <= left) k = 'B';
       else if (x < 55 && depth > 0) k = 'E';
       else if (x < 78) k = 'i';
